@@ -152,7 +152,7 @@ def success_records_line(prog, ctx, rule):
     reports it, and read_file() recognises the NEXT line as a continuation by `entry.line_number + 1 == line` (C15: python style)"""
     st = prog.fn(parser.STORE)
     scfg = st.cfg
-    lsb = set(scfg.block_of(s) for lhs, rhs, s, kind in query.stores(st) if render(lhs).endswith(".line_number") and rhs is not None and render(rhs) == "line_number")
+    lsb = set(scfg.block_of(s) for lhs, rhs, s, kind in query.stores(st) if (lhs.strip().k == "MemberExpr" and lhs.strip().j.get("member") == "line_number" and lhs.strip().j.get("rec") == "file_entry") and rhs is not None and render(rhs) == "line_number")
     if not lsb:
         return
     if scfg.entry in lsb:
@@ -450,7 +450,7 @@ def run(prog, ctx):
         ctx.fail("P4", "every store() call gets the current line number", L.store_calls[0].where, "calls pass different expressions: %s" % sorted(L.line_args), key="line-args")
     st = L.store_fn
     scfg = st.cfg
-    ls = [s for lhs, rhs, s, kind in query.stores(st) if render(lhs).endswith(".line_number") and not query.is_slot_init(s)]
+    ls = [s for lhs, rhs, s, kind in query.stores(st) if (lhs.strip().k == "MemberExpr" and lhs.strip().j.get("member") == "line_number" and lhs.strip().j.get("rec") == "file_entry") and not query.is_slot_init(s)]
     app = [(b, i) for (b, i, s) in scfg.edges() if scfg.edge_lit(b, i) is not None and scfg.edge_lit(b, i).atom == "append_entry"]
     branches = {"new entry": False, "continuation": False}
     for s in ls:
